@@ -14,7 +14,7 @@ import (
 func c03Cfg(rng *rand.Rand) hCfg {
 	c := hCfg{NAssoc: 1 + rng.Intn(2), MaxSess: 4, Steps: 10 + rng.Intn(8), PChoose: 35, PAlloc: 25, PSDF: 60, Canonical: true,
 		MaxPortWidth: 6, MaxPairs: 2, MaxQER: 3, Negatives: true, SafeQER: true,
-		Mods: []string{"upfar", "upqer", "uppdr", "uppdr", "create", "remove", "cpseid"}}
+		Mods: []string{"upfar", "upqer", "uppdr", "uppdr", "create", "remove", "cpseid", "uppdr-same"}}
 	if rng.Intn(10) == 0 {
 		c.MaxPortWidth = 100
 	}
